@@ -90,6 +90,11 @@ theorem Codec.Laws.entries_appendAll {c : Codec R M} (L : c.Laws) (b : Bytes) (r
   simp only [Codec.appendAll]
   rw [L.entries_append_frame, L.entriesT_appendAll]
 
+theorem Codec.Laws.entries_appendAll_ne_nil {c : Codec R M} (L : c.Laws) (b : Bytes) (rs : List R)
+    (h : rs ≠ []) : c.entries (c.appendAll b rs) = c.entriesT b ++ rs := by
+  have hl := (List.dropLast_concat_getLast h).symm
+  rw [hl, L.entries_appendAll, List.append_assoc]
+
 /-- A file is *settled* when reading it as it is equals reading it once more bytes follow a
 newline: true of the empty file and of every file that ends in a framed record. -/
 def Codec.Settled (c : Codec R M) (b : Bytes) : Prop := c.entries b = c.entriesT b
@@ -97,7 +102,7 @@ def Codec.Settled (c : Codec R M) (b : Bytes) : Prop := c.entries b = c.entriesT
 theorem Codec.Laws.settled_nil {c : Codec R M} (L : c.Laws) : c.Settled [] := by
   unfold Codec.Settled Codec.entries Codec.entriesT
   simp [lines, splitNL, linesOfSegs, lineU, linesT, lineT, stripCR, Codec.decLine]
-  cases c.valid [] <;> simp [Codec.decLine, L.dec_nil]
+  cases c.valid [] <;> simp [L.dec_nil]
 
 theorem Codec.Laws.settled_frame {c : Codec R M} (L : c.Laws) (b : Bytes) (r : R) :
     c.Settled (b ++ c.frame r) := by
